@@ -312,6 +312,42 @@ def build(run):
                     return check_same(mk, r, lambda w, c, env: den(w, e, c, env), (), timeout_ms=tmo, what=tag)
                 run.add(tag, thunk, kind="values")
 
+    # ---- reference-value form: the same integrand after apply_function_pullbacks (terminals wrapped in ReferenceValue, as in the second propagation pass of
+    # compute_form_data) is accepted or rejected exactly like the physical one, and every terminal ends up on the same side
+    def reference_form():
+        from ufl.algorithms.apply_function_pullbacks import apply_function_pullbacks
+        n = 0
+        for mname, msh in MESHES.items():
+            sp = spaces(msh)
+            fd, fh, q = ufl.Coefficient(sp["DG"]), ufl.Coefficient(sp["H"]), ufl.Coefficient(sp["RT"])
+            vh, vd, uh = ufl.TestFunction(sp["H"]), ufl.TestFunction(sp["DG"]), ufl.TrialFunction(sp["H"])
+            nrm = C.FacetNormal(msh)
+            cases = {"fd('-') * vh  (continuous test function never restricted)": fd("-") * vh, "fh * vh('+')  (continuous coefficient unrestricted)": fh * vh("+"),
+                     "fd * vh('+')  (discontinuous coefficient unrestricted)": fd * vh("+"), "uh * vh('+')  (trial function unrestricted)": uh * vh("+"),
+                     "fh('-') * vd  (discontinuous test function unrestricted)": fh("-") * vd, "fh * fd('+') * vh('-') * uh('+')": fh * fd("+") * vh("-") * uh("+"),
+                     "dot(q, n)('+') * vh('+')": dot(q, nrm)("+") * vh("+"), "dot(q, n('+')) * vh('+')  (Piola coefficient unrestricted)": dot(q, nrm("+")) * vh("+"),
+                     "jump(fh * vh)": jump(fh * vh), "avg(uh) * jump(vh) * fh": avg(uh) * jump(vh) * fh}
+            for cname, e in cases.items():
+                outcomes = {}
+                for route, pre in (("physical", lambda x_: x_), ("after pullbacks", lambda x_: apply_function_pullbacks(x_))):
+                    try:
+                        r = apply_restrictions(pre(e), default_restrictions={msh: "+"})
+                        sides = sorted((type(nd.ufl_operands[0]).__name__ if not isinstance(nd.ufl_operands[0], C.ReferenceValue) else "RV", str(nd.ufl_operands[0]).replace("reference_value(", "").rstrip(")"), nd.side())
+                                       for nd in ufl.corealg.traversal.unique_pre_traversal(r) if isinstance(nd, C.Restricted)
+                                       and isinstance(nd.ufl_operands[0].ufl_operands[0] if isinstance(nd.ufl_operands[0], C.ReferenceValue) else nd.ufl_operands[0], (C.Coefficient, C.Argument)))
+                        outcomes[route] = ("accepted", tuple((s_[1], s_[2]) for s_ in sides))
+                    except (ValueError, RuntimeError) as ex:
+                        if not deliberate(ex):
+                            return violated(f"crash instead of a result or a refusal: {crash_text(ex)}", reproduced=True, backend="exec")
+                        outcomes[route] = ("rejected", ())
+                n += 1
+                if outcomes["physical"] != outcomes["after pullbacks"]:
+                    return violated(f"{cname} on {mname}: restriction propagation {outcomes['physical'][0]} the integrand as written ({outcomes['physical'][1]}) but "
+                                    f"{outcomes['after pullbacks'][0]} it in reference-value form ({outcomes['after pullbacks'][1]})",
+                                    replay={"integrand": cname, "mesh": mname, "physical": str(outcomes["physical"]), "reference": str(outcomes["after pullbacks"])}, reproduced=True, backend="exec")
+        return proved("exec(finite)", vcs=n, sample=f"{n} (integrand, mesh) cases: same acceptance and same sides before and after function pullbacks")
+    run.add("reference-value-form/same-decision-as-the-physical-form", reference_form, kind="values")
+
     # ---- through compute_form_data (FormData decides per integral whether restrictions are propagated at all): single-domain dS and a
     # multi-domain measure "interior facets of this mesh that are exterior facets of another one"
     def via_cfd(cname, multi):
